@@ -363,6 +363,7 @@ class Hist:
         if prev is None:
             return
         par = prev["par"]
+        settled_now = set()
         for name, vals in ev:
             if name == "subscription.EventPayForPlan":
                 pay = sum(I(c[1]) for c in vals[1]["c"])
@@ -392,16 +393,20 @@ class Hist:
                     if not hasattr(self, "metered_paid"):
                         self.metered_paid = {}
                     self.metered_paid[sid] = self.metered_paid.get(sid, 0) + pay + fee
-                    sb = self.subs(st).get(sid)
-                    if sb and sb["k"] == "node" and I(sb["gb"]) != 0:
-                        al = self.allocs(st).get((sid, sb["a"]))
-                        if al is not None:
-                            price = I(sb["dep"][1]) // I(sb["gb"])
-                            want = -((-price * I(al["u"])) // GB)
-                            if self.metered_paid[sid] != want:
-                                self.v("C05", i, "subscription %d: cumulative metered charge %d, but price %d/GB on %d settled bytes rounds up to %d" %
-                                       (sid, self.metered_paid[sid], price, I(al["u"]), want))
+                    settled_now.add(sid)
                 self.nt("C05")
+        # metered usage (all settlements of this step applied): the cumulative charge of a per-gigabyte subscription is the
+        # per-gigabyte price on the cumulative settled bytes, rounded up once
+        for sid in sorted(settled_now):
+            sb = self.subs(st).get(sid)
+            if sb and sb["k"] == "node" and I(sb["gb"]) != 0:
+                al = self.allocs(st).get((sid, sb["a"]))
+                if al is not None:
+                    price = I(sb["dep"][1]) // I(sb["gb"])
+                    want = -((-price * I(al["u"])) // GB)
+                    if self.metered_paid[sid] != want:
+                        self.v("C05", i, "subscription %d: cumulative metered charge %d, but price %d/GB on %d settled bytes rounds up to %d" %
+                               (sid, self.metered_paid[sid], price, I(al["u"]), want))
         if kind == "node_subscribe":
             node = self.nodes(prev).get(toks[3].lower().split(":", 1)[1])
             gb, hr, dn = I(toks[4]), I(toks[5]), int(toks[6])
